@@ -161,6 +161,7 @@ impl MrtInRunner {
     async fn process_state_change(
         gate: &Gate,
         ingresses: &Arc<ingress::Register>,
+        parent_id: IngressId,
         sc: routecore::mrt::StateChangeAs4
     ) {
         match (sc.old_state(), sc.new_state()){
@@ -172,6 +173,7 @@ impl MrtInRunner {
             (State::Established, State::Idle) => {
                 if let Some((ingress_id, _info)) = ingresses.find_existing_peer(
                     &IngressInfo::new()
+                    .with_parent(parent_id)
                     .with_remote_addr(sc.peer_addr())
                     .with_remote_asn(sc.peer_asn())
                 ) {
@@ -431,10 +433,10 @@ impl MrtInRunner {
         for msg in mrt_file.messages() {
             match msg {
                 Bgp4Mp::StateChange(sc) => {
-                    MrtInRunner::process_state_change(&gate, &ingresses, sc.into()).await;
+                    MrtInRunner::process_state_change(&gate, &ingresses, parent_id, sc.into()).await;
                 }
                 Bgp4Mp::StateChangeAs4(sc) => {
-                    MrtInRunner::process_state_change(&gate, &ingresses, sc).await;
+                    MrtInRunner::process_state_change(&gate, &ingresses, parent_id, sc).await;
                 }
                 Bgp4Mp::Message(msg) => {
                     let (reach, unreach) = MrtInRunner::process_message(&gate, &ingresses, parent_id, msg.into()).await?; 
